@@ -399,7 +399,7 @@ func (e *Effects) analyze(fn *ssa.Function) {
 			if !ok {
 				continue
 			}
-			for k, rv := range ret.Results {
+			for k, rv := range retVals(ret) {
 				if !hasContent(rv.Type()) || isConst(rv) {
 					continue
 				}
